@@ -38,8 +38,16 @@ def gen_real_case(seed):
             else:
                 prog.append(["stop"])
         progs.append(prog)
+    directed = rng.random() < 0.15
+    if directed:
+        # directed shape: the root goes away and stop() follows at once - the emitter's own shutdown races the observer's
+        progs = [[["schedule", "root", True, 0]] + [["fs", "mkfile", rng.choice(dirs) + "/" + rng.choice("xyz")] for _ in range(rng.randrange(0, 3))]]
+        if rng.random() < 0.5:
+            progs.append([["sleep", rng.choice([1, 600])], ["stop"]])
     pos = rng.randrange(len(progs[0]) + 1)
     progs[0].insert(pos, ["start"])
+    if directed:
+        progs[0].append(["rmroot"])
     if rng.random() < 0.12:
         prog = progs[rng.randrange(len(progs))]
         prog.insert(rng.randrange(len(prog) + 1), ["start"])  # start() a second time
@@ -48,6 +56,12 @@ def gen_real_case(seed):
     sched = draw_sched(cfg, line=True, pct_k=2500, step_cap=400_000, horizon=3600, pct_share=0.25)
     if sched.get("p_line", 0) > 0.05:
         sched["p_line"] = 0.05
+    if directed:
+        # the race sits between two consecutive statements of on_thread_stop(): statement-level pre-emption is needed
+        sched["line"] = True
+        if sched["policy"] != "pct":
+            sched["policy"] = "random"
+            sched["p_line"] = cfg.choice([0.05, 0.15, 0.3])
     return {"mode": "real", "pre": pre, "progs": progs, "backend": cfg.choice(["inotify", "inotify", "polling"]),
             "reentrant": rng.choice([None, None, "unschedule_all", "stop", "schedule"]), "watch": {"recursive": True, "root_kind": "str", "spelling": "abs", "observer_timeout": cfg.choice([1.0, 1.0, 0.25, 0.05])},
             "faults": {"short_read": [rng.choice([32, 64, 0])]} if rng.random() < 0.3 else {}, "sched": sched, "no_final_stop": cfg.random() < 0.5}
